@@ -73,7 +73,7 @@ Record ctx_table := {
   ct_md_get : aexp;                              (* MinidumpContext::get_register_always arm *)
   ct_md_valid : bexp;                            (* MinidumpContext::get_register: the arm of `let valid = match ..` *)
   ct_md_filter : bexp;                           (* MinidumpContext::valid_registers: the arm of the filter closure *)
-  ct_fields : list (name * Z * Z);               (* the struct's integer fields: (name, element width, array length or -1) *)
+  ct_fields : list (name * Z * Z * Z);               (* the struct's integer fields: (name, element width, array length or -1, byte offset in the serialised struct) *)
   ct_gpr : list name                           (* MinidumpContext::general_purpose_registers arm (REGISTERS of the named type) *)
 }.
 
